@@ -5,6 +5,7 @@
 #include <vector>
 #include <map>
 #include <deque>
+#include <unordered_set>
 #include <set>
 #include <sstream>
 #include <fstream>
@@ -66,6 +67,10 @@ struct Result {
     std::set<std::string> violation_keys;
     std::string internal_error;
     uint64_t digest = 0;      // order-independent digest of every observable result of the run (used by the C10 fill differential)
+    // distinct non-trivial cases, measured: the harness names each case that is non-trivial by its rule with a canonical key (content of the case or its observable outcome); the driver unions the
+    // hashed keys over all shards and variants and reports the size of the union as coverage.distinct_nontrivial
+    std::unordered_set<uint64_t> distinct_keys;
+    void distinct_case(const std::string& key) { uint64_t h = 1469598103934665603ull; for (unsigned char ch : key) { h ^= ch; h *= 1099511628211ull; } distinct_keys.insert(h); }
     void mix(const std::string& observable) { uint64_t h = 1469598103934665603ull; for (unsigned char ch : observable) { h ^= ch; h *= 1099511628211ull; } digest += h * 0x9e3779b97f4a7c15ull + 1; }
     bool exhaustive = true;
     std::vector<std::string> caps_hit;
@@ -120,6 +125,7 @@ struct Result {
     }
     void write() const {
         if (args.out.empty()) { std::cout << to_json() << std::endl; return; }
+        if (!distinct_keys.empty()) { std::ofstream d(args.out + ".distinct", std::ios::binary); for (uint64_t h : distinct_keys) d.write(reinterpret_cast<const char*>(&h), sizeof h); }
         std::ofstream f(args.out + ".tmp"); f << to_json() << "\n"; f.close();
         rename((args.out + ".tmp").c_str(), args.out.c_str());
     }
